@@ -172,7 +172,7 @@ LEVELS = {
     "C04": ("Proved: ValidPath specification; for every operation of the key-value model, the Sub view and the mount FS, an invalid name (either name for Rename) leaves the whole state unchanged and fails with ErrInvalid naming the caller's path; valid names are never refused as invalid. "
             "Checked every run: model = implementation on 1.5k cases; 9k name x operation x layer cases (incl. os, cold and warm cache, a finished, a failed and a cancelled tar FS) against the gate's expected behaviour.",
             "os, cache and tar layers are oracle-only."),
-    "C05": ("Proved: in every state (store failures included) each failure of Stat, Mkdir, Remove, Chmod, Chtimes and OpenFile of the key-value model is a PathError naming exactly the caller's path, also through a generic Sub view and a mount FS (the added prefix is exactly the stripped one); on well-formed fault-free states the sentinel for each situation (invalid, exists, missing, below a file, not empty, root); Rename with an invalid name gives a LinkError with both names; in every state every failure of Rename is a LinkError (exactly the caller's names for a non-directory source, the caller's names or both extended by one relative path for a directory) and every error of a handle operation is io.EOF or a PathError. "
+    "C05": ("Proved: in every state (store failures included) each failure of Stat, Mkdir, Remove, Chmod, Chtimes and OpenFile of the key-value model is a PathError naming exactly the caller's path, also through a generic Sub view and a mount FS (the added prefix is exactly the stripped one); on well-formed fault-free states the sentinel for each situation (invalid, exists, missing, below a file, not empty, root); Rename with an invalid name gives a LinkError with both names; in every state every failure of Rename is a LinkError (exactly the caller's names for a non-directory source, the caller's names or both extended by one relative path for a directory) and every error of a handle operation is io.EOF or a PathError; a failed Rename of a non-directory through a mount FS (within one mount or across two) is a LinkError with exactly the caller's two names. "
             "Checked every run: full error values model = implementation (mem); type, path and sentinel implementation = os on mem, Sub(mem, a/ab), a mount FS and os.FS under two Sub roots; under a store that fails one call (every index in turn, both transaction paths) every reported error is still typed and names the caller's path.",
             "Not proved: MkdirAll/RemoveAll; Rename's out-of-fuel marker of the model is excluded by the statement; cache and tar layers are exercised by C04/C10/C12 only. Two known findings (precedence; ancestor named by RemoveAll)."),
     "C06": ("Proved over the mount model: routing is independent of the table's iteration order, selects the longest whole-element prefix, never confuses look-alike prefixes; only the routed constituent changes and the result is the direct one; AddMount succeeds at most/exactly once per point under concurrency, is accepted only at a valid unmounted name that is a directory of the file system its parent routes to, changes nothing when refused, and afterwards routes the point and what lies below it to the new constituent and everything else as before; a Rename across two mounts is REFUTED as an all-or-nothing operation (two witnesses = the two known findings). "
